@@ -811,6 +811,19 @@ func init() {
 				return fw.Result{Verdict: fw.Violated, Key: "conversion:" + want.kind, Case: fw.Trim(desc, 600),
 					Msg: fmt.Sprintf("data.NewWith(%+v, %s) is not the same structure: %s", opts, fw.Trim(desc, 300), why)}
 			}
+			// data.New converts with the options in data.DefaultStructOptions, a variable the documentation tells callers to
+			// assign to: it follows the variable whenever it is called, not only the first time
+			if i%4 == 1 {
+				saved := data.DefaultStructOptions
+				data.DefaultStructOptions = opts
+				viaDefault := data.New(v)
+				data.DefaultStructOptions = saved
+				ctx.Obs("default_options_reassigned", 1)
+				if why := cmpExp(viaDefault, want, "$"); why != "" {
+					return fw.Result{Verdict: fw.Violated, Key: "conversion:default-options-not-followed", Case: fw.Trim(desc, 600),
+						Msg: fmt.Sprintf("data.DefaultStructOptions = %+v; data.New(%s) is not the same structure: %s", opts, fw.Trim(desc, 300), why)}
+				}
+			}
 			// printing the converted value is a function of the value
 			if p1 := safeString(got); true {
 				for rep := 0; rep < 4; rep++ {
